@@ -4,7 +4,7 @@
    Round 2 (polish): an [Example] of non-vacuity beside every theorem with hypotheses (data in
    StackProofs2.v) and, from C13_histories_compose on, the stack discipline for arbitrary interleavings
    (frame rule, matching push), the top-to-bottom view, and the pool-level constructors/operations. *)
-From Verif Require Import Base Sorter Value Seq Coll Pool PoolFrame StackProofs StackProofs2.
+From Verif Require Import Base Sorter Value Seq Coll Pool PoolFrame StackProofs StackProofs2 PoolInv StackImpl StackImplProofs.
 Local Open Scope nat_scope.
 
 Theorem C13_never_exceeds_capacity :
@@ -178,6 +178,63 @@ Example C13_pool_example :
 Proof. repeat split; vm_compute; reflexivity. Qed.
 
 
+(* Round 3: the pool-wide invariant as ONE theorem.  In every pool reachable by ANY history (all 80 ops of the
+   pool machine: constructors of every kind, class functions, every method of every collection, caller-side
+   writes, iterators) from the empty pool, every stack holds at most as many values as its capacity. *)
+Theorem C13_pool_invariant :
+  forall (zero : val) (ops : list op) (i cap : nat) (l : list val),
+  nth i (run zero [] ops) ODead = OStk cap l -> length l <= cap.
+Proof. exact pool_invariant. Qed.
+
+(* ... and from any pool that satisfies it (pool_ok p := every OStk cap l of p has length l <= cap) *)
+Theorem C13_pool_invariant_is_inductive :
+  forall (zero : val) (ops : list op) (p : pool), pool_ok p -> pool_ok (run zero p ops).
+Proof. exact run_pool_ok. Qed.
+
+(* non-vacuity: a history that builds stacks in every possible way (Make, MakeWithCapacity, MakeFromArray of 17
+   values — one more than the default capacity —, MakeFromSequence of a stack), pushes past capacity, pops,
+   clears; the stacks of the final pool with their capacities *)
+Example C13_pool_invariant_example :
+  let ops := [NewSlice (map (VInt 0) [1; 2; 3; 4; 5; 6; 7; 8; 9; 10; 11; 12; 13; 14; 15; 16; 17]%Z); FromArray CStack 0;
+              MakeCap CStack 1; Push 2 (VInt 0 7); Push 2 (VInt 0 8); FromSeq CStack 2 []; MakeEmpty CStack;
+              Push 4 (VInt 0 1); Push 1 (VInt 0 18); Pop 1; RemoveAll 3] in
+  map (fun o => match o with OStk cap l => Some (cap, length l) | _ => None end) (run (VInt 0 0) [] ops) =
+    [None; Some (17, 16); Some (1, 1); Some (16, 0); Some (16, 1)] /\
+  pool_ok (run (VInt 0 0) [] ops).
+Proof. split; [vm_compute; reflexivity|]. apply C13_pool_invariant_is_inductive. constructor. Qed.
+
+(* Round 3: stack.go's own shape (StackImpl.v: a capacity and a List; AddValue = capacity test + InsertValue(0, v),
+   RemoveTop = IsEmpty test + RemoveValue(1), through the List methods of Seq.v) IS the stack machine above, for
+   every history; so the code-shaped stack never exceeds its capacity *)
+Theorem C13_impl_stack_over_list_is_the_stack_machine :
+  forall (A : Type) (zero : A) (ops : list (kop A)) (s : stk A),
+  irun A zero s ops =
+  ({| s_cap := s_cap s; s_values := fst (krun A (s_cap s) (s_values s) ops) |}, snd (krun A (s_cap s) (s_values s) ops)).
+Proof. exact irun_is_krun. Qed.
+
+Theorem C13_impl_never_exceeds_capacity :
+  forall (A : Type) (zero : A) (ops : list (kop A)) (s : stk A),
+  length (s_values s) <= s_cap s ->
+  length (s_values (fst (irun A zero s ops))) <= s_cap (fst (irun A zero s ops)) /\
+  s_cap (fst (irun A zero s ops)) = s_cap s.
+Proof. exact impl_never_exceeds_capacity. Qed.
+
+Theorem C13_impl_constructors_within_capacity :
+  forall (A : Type) (dflt : nat) (l : list A),
+  length (s_values (s_make_from dflt l)) <= s_cap (s_make_from dflt l) /\
+  s_cap (s_make_from dflt l) = Nat.max dflt (length l) /\
+  s_values (s_make_from dflt l) = l /\
+  s_make_with_capacity 0 = (Panic : out (stk A)) /\
+  (forall cap : nat, cap <> 0 -> s_make_with_capacity cap = Ret {| s_cap := cap; s_values := ([] : list A) |}).
+Proof. exact constructors_within_capacity. Qed.
+
+Example C13_impl_example :
+  length (s_values (s_make_from 3 ex_stack)) <= s_cap (s_make_from 3 ex_stack) /\
+  irun Z 0%Z (s_make_from 3 ex_stack) ex_kops =
+    ({| s_cap := 3; s_values := [7]%Z |},
+     [KPanic Z; KVal Z 3%Z; KUnit Z; KPanic Z; KVal Z 5%Z; KVal Z 2%Z; KVal Z 1%Z; KPanic Z; KUnit Z]).
+Proof. split; [vm_compute; lia|vm_compute; reflexivity]. Qed.
+
 Print Assumptions C13_never_exceeds_capacity.
 Print Assumptions C13_push_on_full_panics_unchanged.
 Print Assumptions C13_push_adds_on_top.
@@ -194,3 +251,8 @@ Print Assumptions C13_popping_everything_yields_top_to_bottom.
 Print Assumptions C13_pool_constructors_within_capacity.
 Print Assumptions C13_pool_make_stack.
 Print Assumptions C13_pool_stack_ops_are_the_stack_machine.
+Print Assumptions C13_pool_invariant.
+Print Assumptions C13_pool_invariant_is_inductive.
+Print Assumptions C13_impl_stack_over_list_is_the_stack_machine.
+Print Assumptions C13_impl_never_exceeds_capacity.
+Print Assumptions C13_impl_constructors_within_capacity.
